@@ -637,14 +637,20 @@ def index(base, key):
         # x[:] = v (or x[...] = v) replaces every entry: reading entry k afterwards reads v[k] (v an array expression)
         return index(a[2][2], key)
     if a[0] == 'app' and a[1] == 'setitem' and len(a[2]) == 3 and a[2][1] == key and isinstance(a[2][2], Poly) \
-            and isinstance(key, (Poly, Slice, Tup)):
-        return a[2][2]            # read back what was just stored under the same key
+            and isinstance(key, (Poly, Slice, Tup)) and not (_has_slice(key) and a[2][2].const_value() is not None):
+        # read back what was just stored under the same key (a region filled with a constant stays the region of the array
+        # it is: what is read is a view of that array, not the number)
+        return a[2][2]
     if a[0] == 'idx' and isinstance(key, (Poly, Slice, Tup)) and \
             (a[1][0] in ('sym', 'attr', 'loop', 'iter') or isinstance(a[2], Slice)):
         k = compose_keys(a[2], key)
         if k is not None:
             return Poly.atom(('idx', a[1], k))
     return Poly.atom(('idx', a, key))
+
+
+def _has_slice(key):
+    return isinstance(key, Slice) or (isinstance(key, Tup) and any(isinstance(k, Slice) for k in key.items))
 
 
 INTEGER_SYMS = set()      # names of symbols that denote integers / integer tuples (array sizes, extents, indices)
